@@ -65,6 +65,8 @@ type Env struct {
 	// CheckOpts, if set, is called with the coder's Options inside every call.
 	CheckOpts func(opts jsontext.Options) string
 	Depth     int // re-entrancy guard
+	// InUse counts, per coder, how many user callbacks currently hold it.
+	InUse map[any]int
 }
 
 var Cur = &Env{}
@@ -99,6 +101,11 @@ func okPayload(b Behaviour, id int) string {
 func (e *Env) MarshalTo(method string, id int, enc *jsontext.Encoder) error {
 	b := e.beh(id)
 	e.log(method, id, KindNames[b.Kind])
+	if e.InUse == nil {
+		e.InUse = map[any]int{}
+	}
+	e.InUse[enc]++
+	defer func() { e.InUse[enc]-- }()
 	e.yield("peer/" + method)
 	if e.CheckOpts != nil {
 		if msg := e.CheckOpts(enc.Options()); msg != "" {
@@ -312,3 +319,20 @@ func PToFn(enc *jsontext.Encoder, p PFunc) error {
 	return Cur.MarshalTo("MarshalToFunc[PFunc]", p.ID, enc)
 }
 func PBytesFn(p PFunc) ([]byte, error) { return Cur.MarshalBytes("MarshalFunc[PFunc]", p.ID) }
+
+// OnceBox makes POnce panic exactly once.
+type OnceBox struct{ Fired bool }
+
+// POnce panics (tagged) the first time it is marshalled and behaves afterwards:
+// user code that failed once and is then retried by its caller.
+type POnce struct{ box *OnceBox }
+
+func NewPOnce() POnce { return POnce{&OnceBox{}} }
+
+func (p POnce) MarshalJSONTo(e *jsontext.Encoder) error {
+	if !p.box.Fired {
+		p.box.Fired = true
+		panic(PeerPanic{-1})
+	}
+	return e.WriteToken(jsontext.String("ok"))
+}
